@@ -152,6 +152,12 @@ static int32_t wr_data(struct jls_core_fsr_s * self) {
     if (self->data->header.entry_count > self->data_length) {
         JLS_LOGE("internal memory error");
     }
+    uint32_t tail_bits = (self->data->header.entry_count * sample_size_bits(self)) % 8;
+    if (tail_bits) {
+        // the samples of the last, partially filled byte are still carried in shift_buffer
+        uint8_t * tail = ((uint8_t *) self->data->data) + (self->data->header.entry_count * sample_size_bits(self)) / 8;
+        *tail = self->shift_buffer & (uint8_t) ((1 << tail_bits) - 1);
+    }
     uint32_t data_length = (self->data->header.entry_count * sample_size_bits(self) + 7) / 8;
     uint32_t payload_length = sizeof(struct jls_fsr_data_s) + data_length;
     bool omit_data = (self->write_omit_data > 1);
